@@ -119,15 +119,17 @@ fn main() {
          texts of 1-3 tokens over {alpha,beta,gamma,delta} incl. repeats (so: re-insert of a removed id, insert of a live id = \
          AlreadyExists, a text without tokens = TokenizeFailed), remove(id, original text), remove(id, one of 3 other texts), \
          purge_ids (5 sets incl. empty and absent), compact_buckets, flush, flush+load_all}; each candidate is re-executed from \
-         scratch on a fresh real index (bucket_overload_size 32: two tokens per bucket); checked after the last op: return value vs \
-         model, light battery (len, get_doc_tokens per id, stats num_elements and avg_doc_tokens bit-exact, search() for every term + \
-         2- and 3-word queries, every boolean tree to depth 2 via try_search_advanced: id set = set algebra over the naive inverted \
-         index, scores finite and >= 0, order (score desc, id asc)), then flush + load_all + the same battery; dedup key = (model incl. \
-         the stale posting entries the remove contract allows, committed model, public flags, canonical durable objects, canonical \
-         objects written by the probe flush) | deep battery, once per distinct model state on a re-executed representative history: \
-         every 1-/2-word search and every boolean tree to the tier's depth, each with the identical-repeat check and top-k = prefix \
-         of the full list for k in 0..n+1; depth<=2 trees additionally under 12 BM25 parameter sets (default, k1=0, b=0, b=1, NaN, \
-         +-inf, negative, f32::MAX)",
+         scratch on a fresh real index (bucket_overload_size 32: two tokens per bucket; thorough also 20 and the 512 KiB default); \
+         checked after the last op: return value vs model, light battery (len, get_doc_tokens per id, stats num_elements and \
+         avg_doc_tokens bit-exact, search() for every term incl. an absent one + a 3-word query, 6 boolean shapes via \
+         try_search_advanced: id set = set algebra over the naive inverted index, scores finite and >= 0, order (score desc, id asc)), \
+         then flush + load_all + the same battery; dedup key = (model incl. the stale posting entries the remove contract allows, \
+         committed model, public flags, canonical durable objects, canonical objects written by the probe flush) | deep battery, once \
+         per distinct model state (discovery order) on a re-executed representative history: every 1-/2-word search and every \
+         boolean tree to the tier's depth (quick 2: 70 trees; thorough 3: Not / binary And / binary Or over all depth<=2 trees), each \
+         with the identical-repeat check and top-k = prefix of the full list for k in 0..n+1; 12 BM25 parameter sets (default, k1=0, \
+         b=0, b=1, NaN, +-inf, negative, f32::MAX) over terms + 6 shapes (quick) / every depth<=2 tree (thorough); 3- and 4-word \
+         searches repeated 8 times",
     );
     run.assume("the model tokenizes with the crate's own collect_tokens(default_tokenizer()), as the property prescribes; the tokenizer itself is trusted");
     run.assume("scoring is a function of postings, doc_tokens and total_tokens; the deep battery therefore runs once per distinct model state (model state includes the stale posting entries allowed by remove-with-non-original-text)");
